@@ -405,7 +405,7 @@ def run(ctx):
     ctx.require("write_and_close_fault_cells", ctx.pick(300, 3000))
     ctx.require("close_fault_only_cells", ctx.pick(80, 400))
     ctx.require("rejected_write_outcomes_checked", ctx.pick(600, 6000))
-    ctx.require("connection_gone_with_stalled_writes_cells", ctx.pick(40, 400))
+    ctx.require("connection_gone_with_stalled_writes_cells", ctx.pick(40, 150))
     for pl in ("status:4", "status:1", "drop_at_close", "drop_before_close", "gone_before_close"):
         ctx.require("cells_" + plan_class(pl).replace(" ", "_"), ctx.pick(60, 500))
     ctx.require("short_source_cells", ctx.pick(60, 150))
